@@ -343,6 +343,95 @@ pipeline P(
 call P()
 `
 
+// an invalid program: three calls depending on each other in a cycle (the
+// error message lists the cycle)
+const selfCycleSrc = `
+stage A(
+    in  int x,
+    out int o,
+    src comp "bin",
+)
+
+stage B(
+    in  int x,
+    out int o,
+    src comp "bin",
+)
+
+stage C(
+    in  int x,
+    out int o,
+    src comp "bin",
+)
+
+pipeline P(
+    out int o,
+)
+{
+    call A(
+        x = C.o,
+    )
+
+    call B(
+        x = A.o,
+    )
+
+    call C(
+        x = B.o,
+    )
+
+    return (
+        o = C.o,
+    )
+}
+
+call P()
+`
+
+// an invalid program with several independent errors of the same kind (two
+// calls each binding a parameter that does not exist, two unknown outputs)
+const selfTwoErrorsSrc = `
+stage A(
+    in  int x,
+    in  int y,
+    out int o,
+    out int p,
+    src comp "bin",
+)
+
+stage B(
+    in  int x,
+    in  int y,
+    out int o,
+    src comp "bin",
+)
+
+pipeline P(
+    out int o,
+    out int p,
+)
+{
+    call A(
+        x = 1,
+        y = 2,
+        w = 3,
+        v = 4,
+    )
+
+    call B(
+        x = A.zz,
+        y = A.yy,
+    )
+
+    return (
+        o = B.o,
+        p = B.nope,
+    )
+}
+
+call P()
+`
+
 // selfCompile compiles one program and renders everything computed.
 func selfCompile(src []byte) string {
 	var parser Parser
@@ -382,9 +471,15 @@ func H_SELF_compile(i int) {
 	} else if i == len(selfCompileFiles)+1 {
 		src = []byte(selfSameLineSrc)
 		name = "same-line splits fixture"
-	} else {
+	} else if i == len(selfCompileFiles)+2 {
 		src = []byte(selfKeyMismatchSrc)
 		name = "key mismatch fixture"
+	} else if i == len(selfCompileFiles)+3 {
+		src = []byte(selfCycleSrc)
+		name = "dependency cycle fixture"
+	} else {
+		src = []byte(selfTwoErrorsSrc)
+		name = "two errors fixture"
 	}
 	verifReverseMapOrder(false)
 	sum := selfCompile(src)
